@@ -268,6 +268,30 @@ func init() {
 	})
 }
 
+var c01held, c01heldCopy []byte
+
+// long-lived objects reused across all cases of a worker
+var c01hist = func() *struct {
+	buf   bytes.Buffer
+	wenc  *wkb.Encoder
+	eenc  *ewkb.Encoder
+	escan *ewkb.GeometryScanner
+	wscan *wkb.GeometryScanner
+} {
+	x := &struct {
+		buf   bytes.Buffer
+		wenc  *wkb.Encoder
+		eenc  *ewkb.Encoder
+		escan *ewkb.GeometryScanner
+		wscan *wkb.GeometryScanner
+	}{}
+	x.wenc = wkb.NewEncoder(&x.buf)
+	x.eenc = ewkb.NewEncoder(&x.buf)
+	x.escan = ewkb.Scanner(nil)
+	x.wscan = wkb.Scanner(nil)
+	return x
+}()
+
 func c01one(c *h.Ctx, r *h.Rand, g, snap, want orb.Geometry, isNil bool, order binary.ByteOrder, srid int) {
 	d := func() map[string]interface{} {
 		return map[string]interface{}{"kind": refmodel.KindName(g), "geometry": sv(snap), "order": orderName(order), "srid": srid}
@@ -363,6 +387,29 @@ func c01one(c *h.Ctx, r *h.Rand, g, snap, want orb.Geometry, isNil bool, order b
 			fail("", "ewkb.ValuePrefixSRID is not a 4 byte little endian SRID followed by plain WKB", nil)
 		}
 	}
+
+	// bytes returned by an earlier Marshal call stay the caller's
+	if c01held != nil && !bytes.Equal(c01held, c01heldCopy) {
+		fail("", "bytes returned by an earlier ewkb.Marshal call were overwritten by a later call", nil)
+	}
+	c01held, c01heldCopy = edata, append([]byte{}, edata...)
+
+	// ---------- long-lived encoders and scanners (one per worker, reused for every case: state must not leak between uses)
+	c01hist.buf.Reset()
+	if err := c01hist.wenc.SetByteOrder(order).Encode(g); err != nil || !bytes.Equal(c01hist.buf.Bytes(), wdata) {
+		fail("", "a reused wkb.Encoder (SetByteOrder after earlier Encode calls) produces different bytes than Marshal", map[string]interface{}{"err": sv(err), "got": hex.EncodeToString(c01hist.buf.Bytes()), "want": hex.EncodeToString(wdata)})
+	}
+	c01hist.buf.Reset()
+	if err := c01hist.eenc.SetByteOrder(order).SetSRID(srid).Encode(g); err != nil || !bytes.Equal(c01hist.buf.Bytes(), edata) {
+		fail("", "a reused ewkb.Encoder produces different bytes than Marshal", map[string]interface{}{"err": sv(err), "got": hex.EncodeToString(c01hist.buf.Bytes()), "want": hex.EncodeToString(edata)})
+	}
+	if err := c01hist.escan.Scan(append([]byte{}, edata...)); err != nil || !c01hist.escan.Valid || c01hist.escan.SRID != srid || !refmodel.EqualBits(c01hist.escan.Geometry, want) {
+		fail("", "a reused ewkb.GeometryScanner does not report this input's value and SRID", map[string]interface{}{"err": sv(err), "srid": c01hist.escan.SRID, "got": sv(c01hist.escan.Geometry)})
+	}
+	if err := c01hist.wscan.Scan(append([]byte{}, wdata...)); err != nil || !c01hist.wscan.Valid || !refmodel.EqualBits(c01hist.wscan.Geometry, want) {
+		fail("", "a reused wkb.GeometryScanner does not report this input's value", map[string]interface{}{"err": sv(err), "got": sv(c01hist.wscan.Geometry)})
+	}
+	c.Evals(4)
 
 	// ---------- byte slice and stream decoders
 	check := func(path string, got orb.Geometry, gotSRID, wantSRID int, err error) bool {
